@@ -6,8 +6,16 @@
 #include "uci_oracle.hpp"
 #include "posgen.hpp"
 #include "gen_util.hpp"
-#include "book.hpp"
+#include "position.hpp"
+#include "move.hpp"
+#include "util.hpp"
+#include <string>
+#include <vector>
+// the oracle needs the specification's table of random constants (a private member); it does its own indexing
+#define private public
 #include "polyglot.hpp"
+#undef private
+#include "book.hpp"
 #include "parameters.hpp"
 #include "textio.hpp"
 #include "moveGen.hpp"
@@ -24,6 +32,38 @@ using namespace gu;
 namespace {
 
 struct PGRec { U64 key; U16 move; U16 weight; };
+
+// Independent polyglot key according to the book format specification: piece kind = 2 * (pawn..king) + (white ? 1 : 0),
+// offset 64 * kind + 8 * rank + file; castling 768 + {white short, white long, black short, black long}; en passant
+// 772 + file; 780 if white is to move. Only the en-passant condition is taken from the engine (its position already
+// drops an en-passant square that cannot be used).
+U64 specKey(const Position& pos) {
+    const U64* R = PolyglotBook::hashRandoms;
+    U64 key = 0;
+    for (int sq = 0; sq < 64; sq++) {
+        int p = pos.getPiece(Square(sq));
+        int type = -1;
+        bool white = Piece::isWhite(p);
+        switch (p) {
+        case Piece::WPAWN: case Piece::BPAWN: type = 0; break;
+        case Piece::WKNIGHT: case Piece::BKNIGHT: type = 1; break;
+        case Piece::WBISHOP: case Piece::BBISHOP: type = 2; break;
+        case Piece::WROOK: case Piece::BROOK: type = 3; break;
+        case Piece::WQUEEN: case Piece::BQUEEN: type = 4; break;
+        case Piece::WKING: case Piece::BKING: type = 5; break;
+        default: break;
+        }
+        if (type >= 0) key ^= R[64 * (2 * type + (white ? 1 : 0)) + 8 * (sq >> 3) + (sq & 7)];
+    }
+    const int cm = pos.getCastleMask();
+    if (cm & (1 << Position::H1_CASTLE)) key ^= R[768];
+    if (cm & (1 << Position::A1_CASTLE)) key ^= R[769];
+    if (cm & (1 << Position::H8_CASTLE)) key ^= R[770];
+    if (cm & (1 << Position::A8_CASTLE)) key ^= R[771];
+    if (pos.getEpSquare().isValid()) key ^= R[772 + pos.getEpSquare().getX()];
+    if (pos.isWhiteMove()) key ^= R[780];
+    return key;
+}
 
 // independent polyglot move encoder/decoder (castling is king-takes-rook in the file)
 U16 encodeMove(const Position& pos, const Move& m) {
@@ -89,6 +129,13 @@ void buildWorld(Rng& r, BookWorld& W, int nLines) {
         std::string cmd = "position startpos";
         if (r.chance(0.25)) { p = TextIO::readFEN("r3k2r/pppq1ppp/2npbn2/2b1p3/2B1P3/2NPBN2/PPPQ1PPP/R3K2R w KQkq - 6 8"); cmd = "position fen r3k2r/pppq1ppp/2npbn2/2b1p3/2B1P3/2NPBN2/PPPQ1PPP/R3K2R w KQkq - 6 8"; }
         if (r.chance(0.1)) { p = TextIO::readFEN("4k3/1P6/8/8/8/8/6p1/4K3 w - - 0 1"); cmd = "position fen 4k3/1P6/8/8/8/8/6p1/4K3 w - - 0 1"; }
+        if (r.chance(0.15)) {
+            // every combination of castling rights
+            static const char* rights[] = {"K", "Q", "k", "q", "Kq", "Qk", "Kk", "Qq", "KQk", "KQq", "Kkq", "Qkq", "KQ", "kq"};
+            std::string fen = std::string("r3k2r/pppq1ppp/2npbn2/2b1p3/2B1P3/2NPBN2/PPPQ1PPP/R3K2R ") + (r.chance(0.5) ? "w " : "b ") + rights[r.below(14)] + " - 6 8";
+            p = TextIO::readFEN(fen);
+            cmd = "position fen " + fen;
+        }
         std::string moves;
         UndoInfo ui;
         int plies = r.chance(0.3) ? (int)r.range(12, 70) : (int)r.range(1, 12); // long lines reach checks and pins
@@ -113,7 +160,7 @@ void buildWorld(Rng& r, BookWorld& W, int nLines) {
                 if (used.count(mi)) continue;
                 used.insert(mi);
                 U16 w = r.chance(0.15) ? 0 : (U16)r.logRange(1, 60000);
-                recs.push_back({PolyglotBook::getHashKey(p), encodeMove(p, lm[mi]), w});
+                recs.push_back({specKey(p), encodeMove(p, lm[mi]), w});
                 if (k == 0) chosen = lm[mi];
             }
             if (r.chance(0.1)) recs.push_back(recs.back()); // duplicate record
@@ -135,7 +182,7 @@ void buildWorld(Rng& r, BookWorld& W, int nLines) {
         std::vector<Move> illegalPl;
         for (int k = 0; k < pl.size; k++) if (!uci::containsMove(lm, pl[k])) illegalPl.push_back(pl[k]);
         if (illegalPl.empty()) { if (pl.size == 0) continue; illegalPl.push_back(pl[(int)r.below(pl.size)]); }
-        recs.push_back({PolyglotBook::getHashKey(p), encodeMove(p, illegalPl[r.below(illegalPl.size())]), (U16)r.logRange(1, 60000)});
+        recs.push_back({specKey(p), encodeMove(p, illegalPl[r.below(illegalPl.size())]), (U16)r.logRange(1, 60000)});
     }
     int noise = (int)r.range(0, 200);
     for (int i = 0; i < noise; i++) recs.push_back({r.next(), (U16)r.below(65536), (U16)r.below(65536)});
@@ -177,7 +224,7 @@ void probeAll(BookWorld& W, bool wellFormed, Rng& r, vf::Result& res, const std:
         std::set<int> seen;
         // what is stored for this position
         std::vector<PGRec> stored;
-        auto it = W.byKey.find(PolyglotBook::getHashKey(pos));
+        auto it = W.byKey.find(specKey(pos));
         if (it != W.byKey.end()) stored = it->second;
         bool allStoredLegal = true;
         long sumW = 0;
@@ -269,7 +316,7 @@ void runC18(const Scenario& sc, vf::Result& res) {
                 std::vector<PGRec> recs = W.recs;
                 long n = r.chance(0.5) ? (long)r.range(16380, 16500) : (long)r.range(32760, 40000);
                 int nMoves = (int)r.range(1, 3);
-                for (long i = 0; i < n; i++) recs.push_back({PolyglotBook::getHashKey(p), encodeMove(p, lm[(size_t)(i % nMoves) % lm.size()]), (U16)(r.chance(0.9) ? 65535 : r.below(65536))});
+                for (long i = 0; i < n; i++) recs.push_back({specKey(p), encodeMove(p, lm[(size_t)(i % nMoves) % lm.size()]), (U16)(r.chance(0.9) ? 65535 : r.below(65536))});
                 std::stable_sort(recs.begin(), recs.end(), [](const PGRec& a, const PGRec& b) { return a.key < b.key; });
                 bad = serialize(recs);
             }
